@@ -5,6 +5,7 @@ import (
 	"encoding/binary"
 	"errors"
 	"fmt"
+	"github.com/jackc/pgx/v5/pgtype"
 	"runtime"
 	"strings"
 	"time"
@@ -267,7 +268,7 @@ func (ch c02) Run(c *core.Ctx) {
 		strict(conn, "handler programs "+trim(shapes, 200), cs)
 	}
 	// (b) hostile client input
-	canon := c04canonical(core.NewRng(c.Seed, "C04canon", 0, 0), 17)
+	canon := c04canonical(core.NewRng(c.Seed, "C04canon", 0, 0), 19)
 	for i := 0; i < nhost; i++ {
 		if !c.Begin(1000000+i) || c.NViol() >= 10 {
 			continue
@@ -532,6 +533,9 @@ func (ch c02) Run(c *core.Ctx) {
 			strict(conn, fmt.Sprintf("ssl / gss negotiation packets %d", v), map[string]any{"workload": "double negotiation", "variant": v})
 		}
 	}
+	if c.Batch == 0 && c.Begin(3400000) {
+		ch.panickingValues(c, env)
+	}
 	// (f) writes interrupted half-way: the k-th transport Write of a canonical session takes half of its
 	// bytes and returns a temporary (timeout) error, for every k. Whether the server gives the connection
 	// up or completes the message, what the client has received is whole messages and, only at the very
@@ -784,5 +788,53 @@ func (ch c02) writerModel(c *core.Ctx, rng *core.Rng, idx int) {
 	}
 	if idx < 1 {
 		c.Sample(map[string]any{"workload": "buffer.Writer model", "ops": shape, "sink_bytes": sink.buf.Len()})
+	}
+}
+
+// c02panics is a row value whose text encoding panics (a TextValuer with a bug).
+type c02panics struct{ at string }
+
+func (p c02panics) TextValue() (pgtype.Text, error) {
+	var m map[string][]string
+	return pgtype.Text{String: m[p.at][0], Valid: true}, nil
+}
+
+// panickingValues: through the extended protocol (where the pinned tree recovers a panicking statement into
+// an ErrorResponse) a row whose j-th value panics while it is encoded, after j values went into the frame:
+// what reaches the client is whole messages all the same.
+func (ch c02) panickingValues(c *core.Ctx, env *hs.Env) {
+	for nc := 2; nc <= 5; nc++ {
+		for at := 0; at < nc; at++ {
+			row := func(bad bool) []any {
+				r := make([]any, nc)
+				for j := range r {
+					r[j] = fmt.Sprintf("value-%d-%d", nc, j)
+				}
+				if bad {
+					r[at] = c02panics{at: "k"}
+				}
+				return r
+			}
+			st := &hs.Stmt{ID: "s", Cols: textCols(nc), Ops: []hs.Op{{K: "row", Vals: row(false)}, {K: "row", Vals: row(true)}, {K: "row", Vals: row(false)}, {K: "complete", Tag: "SELECT 2"}}}
+			sess := &hs.Sess{Progs: map[string]*hs.Prog{"q": {Stmts: []*hs.Stmt{st}}}}
+			conn := env.Dial(sess)
+			conn.Send(pg.Startup([][2]string{{"user", "u"}}))
+			conn.Quiesce()
+			conn.Send(append(append(append(pg.Parse("", "q", nil), pg.Bind("", "", nil, nil, nil)...), pg.Execute("", 0)...), pg.Sync()...))
+			conn.Quiesce()
+			conn.Send(pg.Terminate())
+			conn.CloseWrite()
+			if !conn.WaitClosed() {
+				c.Inconclusive("connection did not close (C02 panicking-value workload)")
+				return
+			}
+			c.Count("rows_whose_encoding_panics_half_way", 1)
+			c.Eval(fmt.Sprintf("panicking value %d/%d", at, nc), true)
+			msgs, rest, err := pg.ParseStream(conn.Out())
+			if err != nil || rest != 0 {
+				c.Violate("grammar", "after a row value panicked while being encoded: "+grammarSig(fmt.Errorf("%v (%d trailing bytes)", err, rest)), fmt.Sprintf("%d columns, value %d panics: %v; messages: %s", nc, at, err, trim(pg.Kinds(msgs), 300)), map[string]any{"workload": "panicking values", "columns": nc, "at": at})
+				return
+			}
+		}
 	}
 }
